@@ -204,17 +204,21 @@ var ghostLevelOf func(ll *LevelList, t *Table) int
 //@           return forall(0, len(levels.levels[i].tables.l), func(a int) bool { return forall(0, len(levels.levels[j].tables.l), func(b int) bool {
 //@             return inList(result0.removals, levels.levels[i].tables.l[a]) ==> inList(result0.removals, levels.levels[j].tables.l[b]) }) }) }) })
 //@   requires forall(0, len(levels.levels), func(i int) bool { return forall(0, len(levels.levels[i].tables.l), func(a int) bool { return ghostLevelOf(levels, levels.levels[i].tables.l[a]) == i }) })
+//@   ensures result1 == nil ==> lvlIn(result0.removals, levels.levels[len(levels.levels)-1]) && forall(0, len(result0.additions), func(a int) bool { return result0.additions[a].LevelNum == -1 })
 //@   loop 0:
 //@     invariant forall(len(levels.levels)-1-idx_, len(levels.levels)-1, func(lv int) bool { return lvlIn(tablesToMerge, levels.levels[lv]) })
-//@     invariant forall(0, len(tablesToMerge), func(p int) bool { return exists(len(levels.levels)-1-idx_, len(levels.levels)-1, func(lv int) bool { return inList(levels.levels[lv].tables.l, tablesToMerge[p]) }) })
+//@     invariant forall(0, len(tablesToMerge), func(p int) bool { return len(levels.levels)-1-idx_ <= ghostLevelOf(levels, tablesToMerge[p]) && ghostLevelOf(levels, tablesToMerge[p]) < len(levels.levels)-1 })
+//@     exit forall(0, len(tablesToMerge), func(p int) bool { return ghostLevelOf(levels, tablesToMerge[p]) < len(levels.levels)-1 &&
+//@          forall(ghostLevelOf(levels, tablesToMerge[p])+1, len(levels.levels)-1, func(lv int) bool { return lvlIn(tablesToMerge, levels.levels[lv]) }) })
 //@   loop 1:
 //@     invariant same(level, levels.levels[len(levels.levels)-2-idx0_]) && len(tableIter) == len(level.tables.l)
 //@     invariant forall(len(levels.levels)-1-idx0_, len(levels.levels)-1, func(lv int) bool { return lvlIn(tablesToMerge, levels.levels[lv]) })
 //@     invariant forall(0, idx_, func(p int) bool { return inList(tablesToMerge, tableIter[p]) })
-//@     invariant forall(0, len(tablesToMerge), func(p int) bool { return exists(len(levels.levels)-2-idx0_, len(levels.levels)-1, func(lv int) bool { return inList(levels.levels[lv].tables.l, tablesToMerge[p]) }) })
+//@     invariant forall(0, len(tablesToMerge), func(p int) bool { return len(levels.levels)-2-idx0_ <= ghostLevelOf(levels, tablesToMerge[p]) && ghostLevelOf(levels, tablesToMerge[p]) < len(levels.levels)-1 })
 //@   loop 2:
 //@     invariant len(tablesToMerge) >= len(atentry(tablesToMerge)) && forall(0, len(atentry(tablesToMerge)), func(p int) bool { return tablesToMerge[p] == atentry(tablesToMerge)[p] })
 //@     invariant forall(len(atentry(tablesToMerge)), len(tablesToMerge), func(p int) bool { return inList(levels.levels[len(levels.levels)-1].tables.l, tablesToMerge[p]) })
+//@     invariant forall(0, idx_, func(a int) bool { return inList(tablesToMerge, levels.levels[len(levels.levels)-1].tables.l[a]) })
 //@   loop 3:
 //@     invariant same(tablesToMerge, atentry(tablesToMerge))
 
@@ -254,3 +258,121 @@ var ghostLevelOf func(ll *LevelList, t *Table) int
 //@   property C18
 //@   trusted
 //@   modifies TableWriter.*, Table.*
+
+// ---- applying a change set (C18). A layout is persistent: AddTables/RemoveTables/NewWithChangeSet
+// build new table sets and never touch the sets of the layout they start from (readers and the
+// concurrent flush path keep using it). The new layout holds, level by level, exactly
+// (old tables + additions for that level) - removals: a table that is neither added nor removed -
+// e.g. a level-0 table flushed while the compaction ran - stays where it is.
+//@ define setOK(s) := s != nil &&
+//@        forall(func(xx_ *Table) bool { return has(s.m, xx_) ==> exists(0, len(s.l), func(jj_ int) bool { return s.l[jj_] == xx_ }) }) &&
+//@        forall(0, len(s.l), func(ii_ int) bool { return has(s.m, s.l[ii_]) && forall(0, ii_, func(jj_ int) bool { return s.l[jj_] != s.l[ii_] }) })
+
+//@ func Table.Size
+//@   property C18
+//@   inline
+
+//@ func Level.tablesAdded
+//@   property C18
+//@   requires setOK(l.tables) && forall(0, len(tables), func(j int) bool { return tables[j] != nil })
+//@   modifies nothing
+//@   ensures fresh(result.tables) && setOK(result.tables) && result.Num == l.Num
+//@   ensures forall(func(x *Table) bool { return has(result.tables.m, x) == (has(l.tables.m, x) || inList(tables, x)) })
+//@   ensures len(result.tables.l) >= len(l.tables.l) && forall(0, len(l.tables.l), func(j int) bool { return result.tables.l[j] == l.tables.l[j] })
+
+//@ func Level.tablesRemoved
+//@   property C18
+//@   requires setOK(l.tables) && forall(0, len(tables), func(j int) bool { return tables[j] != nil })
+//@   modifies nothing
+//@   ensures fresh(result.tables) && setOK(result.tables) && result.Num == l.Num
+//@   ensures forall(func(x *Table) bool { return has(result.tables.m, x) == (has(l.tables.m, x) && !inList(tables, x)) })
+
+//@ func LevelList.AddTables
+//@   property C18
+//@   panics when levelIndex > len(ll.levels) || levelIndex < 0 && len(ll.levels)+levelIndex > len(ll.levels)
+//@   requires -len(ll.levels) <= levelIndex && levelIndex < len(ll.levels)
+//@   requires forall(0, len(ll.levels), func(i int) bool { return setOK(ll.levels[i].tables) }) && forall(0, len(tables), func(j int) bool { return tables[j] != nil })
+//@   modifies ll.levels
+//@   ensures len(ll.levels) == old(len(ll.levels))
+//@   ensures forall(0, len(ll.levels), func(i int) bool { return i != lvlIdx(levelIndex, len(ll.levels)) ==> same(ll.levels[i], old(ll.levels)[i]) })
+//@   ensures setOK(ll.levels[lvlIdx(levelIndex, len(ll.levels))].tables) && fresh(ll.levels[lvlIdx(levelIndex, len(ll.levels))].tables)
+//@   ensures forall(func(x *Table) bool { return has(ll.levels[lvlIdx(levelIndex, len(ll.levels))].tables.m, x) ==
+//@           (has(old(ll.levels)[lvlIdx(levelIndex, len(ll.levels))].tables.m, x) || inList(tables, x)) })
+//@ define lvlIdx(n, cnt) := ite(n < 0, cnt+n, n)
+
+//@ func LevelList.RemoveTables
+//@   property C18
+//@   requires forall(0, len(ll.levels), func(i int) bool { return setOK(ll.levels[i].tables) }) && forall(0, len(tables), func(j int) bool { return tables[j] != nil })
+//@   modifies ll.levels
+//@   ensures len(ll.levels) == old(len(ll.levels))
+//@   ensures forall(0, len(ll.levels), func(i int) bool { return setOK(ll.levels[i].tables) && ll.levels[i].Num == old(ll.levels)[i].Num &&
+//@           forall(func(x *Table) bool { return has(ll.levels[i].tables.m, x) == (has(old(ll.levels)[i].tables.m, x) && !inList(tables, x)) }) })
+//@   loop 0:
+//@     invariant len(ll.levels) == old(len(ll.levels))
+//@     invariant forall(idx_, len(ll.levels), func(i int) bool { return same(ll.levels[i], old(ll.levels)[i]) })
+//@     invariant forall(0, idx_, func(i int) bool { return setOK(ll.levels[i].tables) && ll.levels[i].Num == old(ll.levels)[i].Num &&
+//@           forall(func(x *Table) bool { return has(ll.levels[i].tables.m, x) == (has(old(ll.levels)[i].tables.m, x) && !inList(tables, x)) }) })
+
+//@ func LevelList.NewWithChangeSet
+//@   property C18
+//@   requires cs != nil && forall(0, len(ll.levels), func(i int) bool { return setOK(ll.levels[i].tables) })
+//@   requires forall(0, len(cs.additions), func(a int) bool { return cs.additions[a].Table != nil && -len(ll.levels) <= cs.additions[a].LevelNum && cs.additions[a].LevelNum < len(ll.levels) })
+//@   requires forall(0, len(cs.removals), func(j int) bool { return cs.removals[j] != nil })
+//@   modifies nothing
+//@   ensures fresh(result) && len(result.levels) == len(ll.levels)
+//@   ensures forall(0, len(ll.levels), func(i int) bool { return setOK(result.levels[i].tables) &&
+//@           forall(func(x *Table) bool { return has(result.levels[i].tables.m, x) ==
+//@             ((has(ll.levels[i].tables.m, x) || addedTo(cs, len(cs.additions), i, len(ll.levels), x)) && !inList(cs.removals, x)) }) })
+//@   loop 0:
+//@     invariant fresh(nextLL) && len(nextLL.levels) == len(ll.levels)
+//@     invariant forall(0, len(ll.levels), func(i int) bool { return setOK(nextLL.levels[i].tables) &&
+//@           forall(func(x *Table) bool { return has(nextLL.levels[i].tables.m, x) == (has(ll.levels[i].tables.m, x) || addedTo(cs, idx_, i, len(ll.levels), x)) }) })
+//@ define addedTo(cs, n, i, cnt, x) := exists(0, n, func(aa_ int) bool { return cs.additions[aa_].Table == x && lvlIdx(cs.additions[aa_].LevelNum, cnt) == i })
+
+// A minor compaction step merges ALL tables of two adjacent levels n and n+1 into level n+1
+// (n = the cursor before the step): nothing of level n+1 stays beneath the moved data and
+// nothing newer from level n-1 or above is moved.
+//@ func Compactor.minorCompaction
+//@   property C18
+//@   nosafety
+//@   requires levels != nil && len(levels.levels) >= 2 && c.minorCompactionLevel >= 0
+//@   requires forall(0, len(levels.levels), func(i int) bool { return levels.levels[i].tables != nil && levels.levels[i].Num == i })
+//@   modifies c.minorCompactionLevel, Table.*, TableWriter.*
+//@   ensures c.minorCompactionLevel >= 0
+//@   ensures result1 == nil && result0 != nil ==> 1 <= c.minorCompactionLevel && c.minorCompactionLevel < len(levels.levels)
+//@   ensures result1 == nil && result0 != nil ==> lvlIn(result0.removals, levels.levels[c.minorCompactionLevel-1]) && lvlIn(result0.removals, levels.levels[c.minorCompactionLevel])
+//@   ensures result1 == nil && result0 != nil ==> forall(0, len(result0.removals), func(p int) bool {
+//@           return inList(levels.levels[c.minorCompactionLevel-1].tables.l, result0.removals[p]) || inList(levels.levels[c.minorCompactionLevel].tables.l, result0.removals[p]) })
+//@   ensures result1 == nil && result0 != nil ==> forall(0, len(result0.additions), func(a int) bool { return result0.additions[a].LevelNum == c.minorCompactionLevel })
+//@   loop 0:
+//@     invariant same(inputTables, atentry(inputTables))
+//@   loop 1:
+//@     invariant c.minorCompactionLevel >= 1
+//@   loop 2:
+//@     invariant same(mergeTables, atentry(mergeTables)) && c.minorCompactionLevel == atentry(c.minorCompactionLevel)
+
+// Compact: whatever step is chosen, a returned change set moves a downward-closed selection
+// into one level: either the major form (into the base level, with all base tables) or the
+// minor form (all of two adjacent levels into the deeper one).
+//@ define majorForm(levels, cs) := lvlIn(cs.removals, levels.levels[len(levels.levels)-1]) &&
+//@        forall(0, len(cs.additions), func(aa_ int) bool { return cs.additions[aa_].LevelNum == -1 }) &&
+//@        forall(0, len(levels.levels)-1, func(ii_ int) bool { return forall(ii_+1, len(levels.levels)-1, func(kk_ int) bool {
+//@          return forall(0, len(levels.levels[ii_].tables.l), func(a_ int) bool { return forall(0, len(levels.levels[kk_].tables.l), func(b_ int) bool {
+//@            return inList(cs.removals, levels.levels[ii_].tables.l[a_]) ==> inList(cs.removals, levels.levels[kk_].tables.l[b_]) }) }) }) })
+//@ define minorForm(levels, cs, n) := 1 <= n && n < len(levels.levels) && lvlIn(cs.removals, levels.levels[n-1]) && lvlIn(cs.removals, levels.levels[n]) &&
+//@        forall(0, len(cs.removals), func(pq_ int) bool { return inList(levels.levels[n-1].tables.l, cs.removals[pq_]) || inList(levels.levels[n].tables.l, cs.removals[pq_]) }) &&
+//@        forall(0, len(cs.additions), func(aa_ int) bool { return cs.additions[aa_].LevelNum == n })
+//@ func Compactor.Compact
+//@   property C18
+//@   nosafety
+//@   requires levels != nil && len(levels.levels) >= 2 && c.minorCompactionLevel >= 0
+//@   requires forall(0, len(levels.levels), func(i int) bool { return levels.levels[i].tables != nil && levels.levels[i].Num == i })
+//@   requires forall(0, len(levels.levels), func(i int) bool { return forall(0, len(levels.levels[i].tables.l), func(a int) bool { return ghostLevelOf(levels, levels.levels[i].tables.l[a]) == i }) })
+//@   modifies c.minorCompactionLevel, Table.*, TableWriter.*
+//@   ensures result1 == nil && result0 != nil ==> majorForm(levels, result0) || minorForm(levels, result0, c.minorCompactionLevel)
+//@   ensures c.minorCompactionLevel >= 0
+
+//@ func LevelList.SizeAmplificationRatio
+//@   property C18
+//@   requires len(ll.levels) >= 1
+//@   modifies nothing
